@@ -455,7 +455,12 @@ fn check_block(
     }
     let mut any_match = vec![false; globs.len()];
     let mut any_non = vec![false; globs.len()];
-    for p in paths {
+    // the `_into` entry points are documented to clear the vector they are
+    // given: one vector is reused for every path (and starts with content
+    // that no query can produce), as a caller with a scratch vector does
+    let mut reused: Vec<usize> = vec![usize::MAX, 3, 3];
+    let empty_sets = [globset::GlobSet::empty(), GlobSetBuilder::new().build().expect("empty set")];
+    for (pi, p) in paths.iter().enumerate() {
         let pstr: &std::path::Path = {
             use std::os::unix::ffi::OsStrExt;
             std::path::Path::new(std::ffi::OsStr::from_bytes(p))
@@ -495,6 +500,51 @@ fn check_block(
                     }
                 }
             }
+        }
+        if pi % 2 == 0 {
+            set.matches_candidate_into(&cand, &mut reused);
+        } else {
+            set.matches_into(pstr, &mut reused);
+        }
+        if reused != individually {
+            rep.violation(
+                "C12:set-vs-member:matches_into-with-a-reused-vector",
+                format!(
+                    "path {:?}: {} into a vector that held the previous answer gives {:?}, members answer {:?} ({} globs)",
+                    esc(p),
+                    if pi % 2 == 0 { "matches_candidate_into" } else { "matches_into" },
+                    reused, individually, globs.len()
+                ),
+                || {
+                    json!({
+                        "kind": "set",
+                        "globs": globs.iter().map(|g| json!({"glob": g.text, "opts": g.opts.to_json()})).collect::<Vec<_>>(),
+                        "path": esc(p), "set": reused, "members": individually,
+                    })
+                },
+            );
+        }
+        if pi % 4 == 0 {
+            // a set without globs matches nothing, whatever the vector held
+            let e = &empty_sets[(pi / 4) % 2];
+            let held = if reused.is_empty() { vec![usize::MAX, 1] } else { reused.clone() };
+            let mut v = held.clone();
+            if pi % 8 == 0 {
+                e.matches_candidate_into(&cand, &mut v);
+            } else {
+                e.matches_into(pstr, &mut v);
+            }
+            if !v.is_empty() || e.is_match_candidate(&cand) || !e.matches_candidate(&cand).is_empty() {
+                rep.violation(
+                    "C12:empty-set:answers-something",
+                    format!(
+                        "path {:?}: a set of zero globs, asked with a vector holding {:?}, answers {:?} (is_match {})",
+                        esc(p), held, v, e.is_match_candidate(&cand)
+                    ),
+                    || json!({"kind": "set", "globs": [], "path": esc(p), "set": v, "members": []}),
+                );
+            }
+            rep.count("empty_set_queries_with_a_used_vector");
         }
         if from_set != individually || any != !individually.is_empty() {
             let missing: Vec<usize> = individually.iter().filter(|i| !from_set.contains(i)).copied().collect();
